@@ -12,6 +12,9 @@ Open Scope Z_scope.
 Definition W    : Z := Eval vm_compute in 2 ^ 256.
 Definition HALF : Z := Eval vm_compute in 2 ^ 255.
 Definition W64  : Z := Eval vm_compute in 2 ^ 64.
+Definition MASK : Z := Eval vm_compute in 2 ^ 256 - 1.
+(* reduction modulo 2^256 as the implementation does it: keep the low 256 bits (= x mod W, lemma wrap_mod) *)
+Definition wrap (x : Z) : Z := Z.land x MASK.
 Definition in_word (x : Z) : Prop := 0 <= x < W.
 Definition signed (x : Z) : Z := if x <? HALF then x else x - W.
 Definition b2w (b : bool) : Z := if b then 1 else 0.
@@ -46,9 +49,9 @@ Definition m_shr n x := x / 2 ^ n.
 Definition m_sar n x := (signed x / 2 ^ n) mod W.                                         (* floor *)
 
 (* ------------------------------------------------------------------ uint256 methods as used by the interpreter *)
-Definition u_add x y := (x + y) mod W.
-Definition u_sub x y := (x - y) mod W.
-Definition u_mul x y := (x * y) mod W.
+Definition u_add x y := wrap (x + y).
+Definition u_sub x y := wrap (x - y).
+Definition u_mul x y := wrap (x * y).
 Definition u_neg x := u_sub 0 x.
 Definition u_sign x : Z := if x =? 0 then 0 else if x <? HALF then 1 else -1.
 (* Div: y == 0 || y > x -> 0 ; x == y -> 1 ; (uint64 shortcut / udivrem) -> quotient *)
@@ -78,8 +81,8 @@ Definition u_sgt z x :=
   if (0 <=? zs) && (xs <? 0) then true
   else if (zs <? 0) && (0 <=? xs) then false
   else x <? z.
-Definition u_not x := (Z.lnot x) mod W.
-Definition u_lsh x n := if 256 <=? n then 0 else (Z.shiftl x n) mod W.
+Definition u_not x := wrap (Z.lnot x).
+Definition u_lsh x n := if 256 <=? n then 0 else wrap (Z.shiftl x n).
 Definition u_rsh x n := if 256 <=? n then 0 else Z.shiftr x n.
 (* SRsh: MSB clear -> Rsh ; otherwise shift and fill the vacated top n bits with ones (all ones from 256 on) *)
 Definition u_srsh x n :=
